@@ -67,7 +67,7 @@ def flags_for(cfg):
     if 'address' in san:
         exe.append('-D_GLIBCXX_SANITIZE_VECTOR')    # must agree with the .so: std::vector code is shared across the boundary
     link_so = ['-shared'] + sanflags + ['-Wl,-z,now,-z,relro',
-               '-Wl,--wrap=__cxa_guard_acquire,--wrap=__cxa_guard_release,--wrap=__cxa_guard_abort',
+               '-Wl,--wrap=__cxa_guard_acquire,--wrap=__cxa_guard_release,--wrap=__cxa_guard_abort,--wrap=pthread_once,--wrap=pthread_mutex_lock,--wrap=pthread_rwlock_rdlock,--wrap=pthread_rwlock_wrlock,--wrap=sched_yield',
                # process-global state of the C/C++ runtime: any use by library code is reported (C14)
                '-Wl,' + ','.join('--wrap=' + s for s in RUNTIME_STATE_SYMS)]
     link_exe = sanflags + ['-rdynamic', '-lpthread', '-ldl']
